@@ -3,7 +3,8 @@
    or answered NFS3ERR_STALE.  "Served against" is read off the reply: the fileid of the handle's own
    attribute block is FNV-1a-64 of the path the server used.  A mismatch whose fileid is that of the
    path v was most recently reissued for is the known finding k=1 (handle ids are recycled through
-   the free list after eviction / release). *)
+   the free list after eviction) - but only on exports with a handle limit: without one nothing is ever evicted,
+   no request releases a handle, and a reissued value is a violation like any other. *)
 From Coq Require Import List NArith ZArith Bool.
 From Verif Require Import Model.Handles Model.Backend Model.Srv Corr.Common Corr.SrvCase.
 Import ListNotations.
@@ -26,7 +27,7 @@ Definition own_handle (r : req) : option N :=
   | RSetattr h _ _ | RWrite h _ _ _ _ | RCommit h _ _ | RReaddir h _ _ | RReaddirplus h _ _ _ => Some h
   | _ => None
   end.
-Definition spec_step (x : octx) : list (N * N) :=
+Definition spec_step (limited : bool) (x : octx) : list (N * N) :=
   let st := oc_step x in let o := i_obs st in
   match own_handle (hs_req (i_step st)) with
   | Some v =>
@@ -35,7 +36,7 @@ Definition spec_step (x : octx) : list (N * N) :=
       | Some p0, Some a =>
           if fa_fileid a =? fileid_of p0 then []
           else match g_get (oc_ghost x) v with
-               | Some p1 => if fa_fileid a =? fileid_of p1 then [(oc_i x, 101)] else [(oc_i x, code_specfail)]
+               | Some p1 => if (fa_fileid a =? fileid_of p1) && limited then [(oc_i x, 101)] else [(oc_i x, code_specfail)]
                | None => [(oc_i x, code_specfail)]
                end
       | None, Some _ => [(oc_i x, code_specfail)]      (* a value never issued was served *)
@@ -43,6 +44,6 @@ Definition spec_step (x : octx) : list (N * N) :=
       end
   | None => []
   end.
-Definition specfail (c : case) : list (N * N) := oracle spec_step c.
+Definition specfail (c : case) : list (N * N) := oracle (spec_step (0 <? c_maxh c)%Z) c.
 Definition check (c : case) : list (N * N) := specfail c ++ mismatch c.
 Definition run (cs : list case) : result := run_cases check cs.
